@@ -42,6 +42,12 @@ def assert_repo_import():
 
 
 def _work(args):
+    # each chunk of runs executes in a child forked from this worker, which itself never executes a run:
+    # a chunk starts from the process state of a fresh interpreter (kernel.isolated)
+    return kernel.isolated(_work_chunk, args)
+
+
+def _work_chunk(args):
     prop, tier, base_seed, start, count, nsamples = args
     spec = load_spec(prop)
     engine_cls = spec["engine"]
@@ -51,6 +57,7 @@ def _work(args):
         "transitions": set(), "states": set(), "known": Counter(), "known_what": {}, "violation": None,
         "harness_error": None, "samples": [], "resyncs": 0,
     }
+    earlier = []  # the runs of this chunk so far (kept only to be able to replay the chunk's process state)
     for i in range(start, start + count):
         seed = derive_seed(base_seed, engine_cls.name, prop, i)
         r = execute(engine_cls, prop, seed=seed, findings=findings, tier=tier)
@@ -72,9 +79,20 @@ def _work(args):
         if len(out["samples"]) < nsamples and r.nontrivial:
             out["samples"].append({"run_index": i, "seed": seed, "cfg": r.cfg, "ops": r.ops[:12], "n_ops": len(r.ops)})
         if r.violation is not None:
-            out["violation"] = {"run_index": i, "seed": seed, "cfg": r.cfg, "ops": r.ops, "violation": r.violation.as_dict()}
+            out["violation"] = {"run_index": i, "seed": seed, "cfg": r.cfg, "ops": r.ops, "violation": r.violation.as_dict(), "prelude": earlier}
             break
+        earlier.append({"run_index": i, "cfg": r.cfg, "ops": r.ops})
     return out
+
+
+def _replay_outcome(engine_cls, prop, prelude, cfg, ops, findings):
+    r = kernel.execute_with_prelude(engine_cls, prop, prelude, cfg, ops, findings)
+    return (r.harness_error, repr(r.violation) if r.violation is not None else None)
+
+
+def _final_outcome(engine_cls, prop, prelude, cfg, ops, findings):
+    r = kernel.execute_with_prelude(engine_cls, prop, prelude, cfg, ops, findings)
+    return None if (r.harness_error or r.violation is None) else r.violation.as_dict()
 
 
 def _digests_only(args):
@@ -129,13 +147,13 @@ def cmd_check(prop, tier):
         if not os.path.exists(rp):
             continue
         doc = kernel.load_replay(rp)
-        r = execute(engine_cls, prop, cfg=doc["cfg"], ops=doc["ops"], findings=findings)
+        herr, vrepr = kernel.isolated(_replay_outcome, engine_cls, prop, doc.get("prelude"), doc["cfg"], doc["ops"], findings)
         stats.probe("regression_replays")
-        if r.harness_error:
-            print(f"HARNESS-ERROR in regression replay {rp}: {r.harness_error}")
+        if herr:
+            print(f"HARNESS-ERROR in regression replay {rp}: {herr}")
             sys.exit(2)
-        if r.violation is not None:
-            print(f"regression: fixed finding {e['id']} is back: {r.violation!r}")
+        if vrepr is not None:
+            print(f"regression: fixed finding {e['id']} is back: {vrepr}")
             regressions.append(e["replay"])
     ctx = multiprocessing.get_context("fork")
     next_start = 0
@@ -234,26 +252,42 @@ def selftest_fresh(prop, tier, base_seed, start, count, digests):
 
 def minimise_and_record(prop, engine_cls, v, findings):
     viol = Violation.from_dict(v["violation"])
+    klass = tuple(viol.klass())
     sh = Shrinker(engine_cls, prop, v["cfg"], findings, viol.klass(), budget=400)
+    prelude = []
+    # does the run fail on its own (from the process state of a fresh interpreter)?
+    if not sh.fails_with_prelude([], v["ops"]):
+        # no: it needs the state left behind by the earlier runs of its chunk (a module-level cache, a mutable
+        # default argument, ... of the code under test): those runs become the prelude of the replay file
+        prelude = [{"cfg": p["cfg"], "ops": p["ops"]} for p in v.get("prelude", [])]
+        if not prelude or not sh.fails_with_prelude(prelude, v["ops"]):
+            path = os.path.join(VERIF_DIR, "replays", f"{prop}-{v['seed']}-unreproduced.json")
+            kernel.write_replay(path, engine_cls.name, prop, v["seed"], v["cfg"], v["ops"], viol, extra={"run_index": v["run_index"], "prelude": prelude})
+            return path, "nondeterministic"
+        sh.prelude = prelude
+        prelude = sh.minimise_prelude(v["ops"])
     ops = sh.minimise(v["ops"])
-    r = execute(engine_cls, prop, cfg=v["cfg"], ops=ops, findings=findings)
-    if r.violation is None or r.violation.klass() != viol.klass():
+    fin = kernel.isolated(_final_outcome, engine_cls, prop, prelude, v["cfg"], ops, findings)
+    if fin is None or tuple(Violation.from_dict(fin).klass()) != klass:
         ops = v["ops"]
-        r = execute(engine_cls, prop, cfg=v["cfg"], ops=ops, findings=findings)
-    final = r.violation or viol
-    body = json.dumps(ops, sort_keys=True, default=str)
+        fin = kernel.isolated(_final_outcome, engine_cls, prop, prelude, v["cfg"], ops, findings)
+    final = Violation.from_dict(fin) if fin else viol
+    body = json.dumps([prelude, ops], sort_keys=True, default=str)
     dig = hashlib.sha1(body.encode()).hexdigest()[:10]
     path = os.path.join(VERIF_DIR, "replays", f"{prop}-{v['seed']}-{dig}.json")
-    kernel.write_replay(path, engine_cls.name, prop, v["seed"], v["cfg"], ops, final,
-                        extra={"original_len": len(v["ops"]), "shrink_tries": sh.tries, "run_index": v["run_index"]})
+    extra = {"original_len": len(v["ops"]), "shrink_tries": sh.tries, "run_index": v["run_index"]}
+    if prelude:
+        extra["prelude"] = prelude
+        extra["prelude_note"] = "the violation depends on process state left by these earlier runs: they are replayed first, in this order, in the same process"
+    kernel.write_replay(path, engine_cls.name, prop, v["seed"], v["cfg"], ops, final, extra=extra)
     # replay once more in a fresh interpreter
     env = dict(os.environ)
     env["PYTHONHASHSEED"] = "777"
-    p = subprocess.run([sys.executable, "-B", "-m", "simkit.main", "replay", path], capture_output=True, text=True, env=env, cwd=VERIF_DIR, timeout=300)
+    p = subprocess.run([sys.executable, "-B", "-m", "simkit.main", "replay", path], capture_output=True, text=True, env=env, cwd=VERIF_DIR, timeout=600)
     if p.returncode != 1 or "VIOLATION" not in p.stdout:
         return path, "nondeterministic"
     print(f"violation: {final!r}")
-    print(f"minimised from {len(v['ops'])} to {len(ops)} ops in {sh.tries} replays")
+    print(f"minimised from {len(v['ops'])} to {len(ops)} ops in {sh.tries} replays" + (f"; needs {len(prelude)} earlier run(s) of the same process as prelude (of {len(v.get('prelude', []))})" if prelude else ""))
     for o in ops:
         o = dict(o)
         o.pop("obs", None)
@@ -315,7 +349,7 @@ def cmd_replay(path):
     prop = doc["property"]
     spec = load_spec(prop)
     use_findings = Findings() if not doc.get("ignore_findings") else kernel.NoFindings()
-    r = execute(spec["engine"], prop, cfg=doc["cfg"], ops=doc["ops"], findings=use_findings)
+    r = kernel.execute_with_prelude(spec["engine"], prop, doc.get("prelude"), doc["cfg"], doc["ops"], use_findings)
     if r.harness_error:
         print(r.harness_error)
         sys.exit(2)
